@@ -98,6 +98,21 @@ def rule_bounds(rep):
                         "only overruns when the root link is ambiguous)" + leaf.free_text(),
                         node=f.node,
                     )
+        # the count is an unbounded int; len() of an object raises OverflowError above sys.maxsize
+        n_len = 0
+        for name, m in sorted(forest.methods.items()):
+            for c in walk_no_nested(m.node):
+                if isinstance(c, ast.Call) and is_name(c.func, "len") and c.args and is_name(c.args[0], "self"):
+                    n_len += 1
+                    r.violation(
+                        f"Forest.{name}:len(self)",
+                        f"Forest.{name} reads the number of trees through len(self): len() raises OverflowError "
+                        "for a forest with more than sys.maxsize trees, so valid indexes are refused / an index "
+                        "past the end raises OverflowError instead of IndexError; read self.solutions",
+                        node=c,
+                    )
+        if not n_len:
+            r.ok("no Forest method reads the count through len(self)")
         gi = forest.methods["__getitem__"]
         r.check(
             unparse(gi.node.body[-1]) == f"return self.get_tree({gi.params[1]})",
@@ -341,3 +356,7 @@ def check(rep):
     rule_one_decoder(rep)
     rule_count_decode(rep)
     rule_traversal(rep)
+    from .C02 import rule_link_key, rule_revisit
+
+    rule_link_key(rep)  # links of different root nodes are never merged into one packed node
+    rule_revisit(rep)  # a stale or widened revisit set packs the same alternative twice
